@@ -13,7 +13,9 @@ What each oracle field becomes (Python expression it stands for → closed defin
   tree as constructed (no second pass)
 * `Tabular.Oracle.banned` `OnsetValidator.check_for_banned_tags` → one issue per tag whose short base tag is a time key
 * `Tabular.Oracle.markers` `find_top_level_tags(TEMPORAL_KEYS)` + first of `find_def_tags(include_groups=0)` → from the tree
-* `Tabular.Oracle.items`  NOT closed: a text containing `delay/` is outside the closed fragment (`textUnmodelled`).  A row
+* `Tabular.Oracle.items`  `"delay/" in text.casefold()`, top-level children and `value_as_default_unit()` of their Delay tag →
+  `Validate.delayItems` (`itemsOf`); outside the fragment only: a Delay value Python's `float()` may read more liberally
+  than the model, or a value off the 1/8 s grid of the file model's exact times (`delayOutside`).  A row
   that gets the row-level checks although one of its cells is malformed (`rowSplit`) is answered from the concatenation of
   the cells' trees (`cellsOracle`, `Tabular.validateClosedCells`), as `from_hed_strings` does
 * `SidecarV.Oracle.basic` `run_basic_checks(HedString(s, schema, def_dict).remove_refs(), allow_placeholders=True)` →
@@ -66,12 +68,39 @@ def markers (env : Env) (text : Str) : List Temporal.Marker :=
 /-- `"delay/" in text.casefold()` -/
 def hasDelay (text : Str) : Bool := (findSub (fold text) (fold delayKey ++ ['/'])).isSome
 
+/-- a delay in exact seconds on the 1/8 s grid of the file model's times (`none` = off the grid) -/
+def eighths (d : Units.Dec) : Option Int :=
+  if 0 ≤ d.e then some (8 * d.m * 10 ^ d.e.toNat)
+  else if (8 * d.m) % (10 ^ (-d.e).toNat) == 0 then some (8 * d.m / 10 ^ (-d.e).toNat) else none
+
+/-- `value_as_default_unit()` of a Delay tag as the file model names it; `none` = outside the closed fragment: Python's
+`float()` may be more liberal than the model (`unsure`), or the value is off the 1/8 s grid (the file model's times are
+exact integers, the code adds floats) -/
+def gridVal : DelayVal → Option Tabular.DVal
+  | .value d => (eighths d).map .num
+  | .absent => some .none
+  | .raises => some .bad
+  | .unsure => none
+
+/-- `split_delay_tags`' view of a text: `none` iff `"delay/" not in text.casefold()`, else the top-level children of
+`HedString(text)` with the Delay value of the groups holding a Delay tag (`Validate.delayItems`) -/
+def itemsOf (env : Env) (text : Str) : Option (List Tabular.Item) :=
+  if hasDelay text then
+    some ((delayItems env text).map fun x => ⟨x.1, x.2.map fun v => (gridVal v).getD .bad⟩)
+  else none
+
+/-- some Delay value of the text is not decided by the model / not on the grid -/
+def delayOutside (env : Env) (text : Str) : Bool :=
+  hasDelay text && (delayItems env text).any fun x => match x.2 with
+    | some v => (gridVal v).isNone
+    | none => false
+
 def tabOracle (env : Env) (kBanned : Tabular.RIssue) : Tabular.Oracle where
   cell := cellIssues env
   full := fullIssues env
   pfull := pointIssues env
   banned := bannedIssues env kBanned
-  items := fun t => if hasDelay t then some [⟨t, none⟩] else none
+  items := itemsOf env
   markers := markers env
   fold := fold
 
@@ -79,10 +108,10 @@ def tabOracle (env : Env) (kBanned : Tabular.RIssue) : Tabular.Oracle where
 def closeCfg (env : Env) (kBanned : Tabular.RIssue) (cfg : Tabular.Cfg) : Tabular.Cfg :=
   { cfg with o := tabOracle env kBanned }
 
-/-- a text the closed file model does not speak about: Delay splitting, a construct outside `Validate`, or a string
-on which the real validator raises -/
+/-- a text the closed file model does not speak about: a Delay value outside the model (`delayOutside`), a construct
+outside `Validate`, or a string on which the real validator raises -/
 def textUnmodelled (env : Env) (text : Str) : Bool :=
-  hasDelay text ||
+  delayOutside env text ||
     (let p := parse env text
      unmodelledP env p || raisesP env false text p || dupRaises env p.root0)
 
@@ -150,6 +179,44 @@ def splitAmbiguous (env : Env) (kBanned : Tabular.RIssue) (cfg : Tabular.Cfg) (T
 def splitRaises (env : Env) (kBanned : Tabular.RIssue) (cfg : Tabular.Cfg) (T : List Tabular.Row) : Bool :=
   (splitRows env kBanned cfg T).any fun r => dupRaises env (cellsRoot env (liveTexts cfg r))
 
+/-- pandas' default sort is not stable: which of several rows with the same (effective) time heads the merged time point
+is unspecified.  The verdicts depend on the head when a row of the group is invalid (the time point is skipped iff its
+head is) or when the group holds two or more temporal markers (their order is the order of the rows).  Such tables are
+outside the fragment (the open check of C07 does not generate them either: `tie_sensitive`). -/
+def tieSensitive (env : Env) (kBanned : Tabular.RIssue) (cfg : Tabular.Cfg) (T : List Tabular.Row) : Bool :=
+  let ccfg := closeCfg env kBanned cfg
+  let R := (Tabular.frame ccfg T).map (·.2)
+  let sf := Tabular.splitFrame ccfg R
+  ccfg.hasOnset && sf.any fun x =>
+    let grp := sf.filter fun y => y.1 == x.1
+    grp.any (fun y => y.2.2 != x.2.2) &&
+      (grp.any (fun y => match R[y.2.2]? with
+          | some r => Tabular.anyError (Tabular.lastCellIssues ccfg r)
+          | none => false)
+       || (grp.map fun y => (markers env y.2.1).length).sum ≥ 2)
+
+/-- rows in one equal-time group (for comparing column-less labels modulo the group): (time, position in the frame) of
+every contribution to a time point -/
+def timeParts (env : Env) (kBanned : Tabular.RIssue) (cfg : Tabular.Cfg) (T : List Tabular.Row) : List (Int × Nat) :=
+  let ccfg := closeCfg env kBanned cfg
+  if ccfg.hasOnset then
+    (Tabular.splitFrame ccfg ((Tabular.frame ccfg T).map (·.2))).map fun x => (x.1, x.2.2)
+  else []
+
+/-- why a table is outside the closed fragment (`none` = inside); for drivers.  The consulted texts are those of the
+CLOSED configuration (the time points depend on `items`). -/
+def skipReason (env : Env) (kBanned : Tabular.RIssue) (cfg : Tabular.Cfg) (T : List Tabular.Row) : Option (String × Str) :=
+  let ccfg := closeCfg env kBanned cfg
+  match (consulted ccfg T).find? (textUnmodelled env) with
+  | some t => some (if delayOutside env t then "Delay value (float() more liberal, or off the grid)"
+                    else "string outside Validate", t)
+  | none =>
+    if tieSensitive env kBanned cfg T then some ("equal-time rows whose head decides (unstable sort)", [])
+    else if T.any (rowSplit env kBanned cfg) && splitAmbiguous env kBanned cfg T then
+      some ("joined text of a split row is ambiguous", [])
+    else if T.any (rowSplit env kBanned cfg) && splitRaises env kBanned cfg T then some ("string outside Validate", [])
+    else none
+
 /-! ### evaluation with a table of the oracle's values (the driver's way to compute `validateClosed`; equal to it:
 `Props/Closed.lean`, `memoTab_eq`) -/
 
@@ -167,8 +234,9 @@ def memoTab (o : Tabular.Oracle) (texts : List Str) : Tabular.Oracle :=
   let p := tabulate o.pfull texts
   let b := tabulate o.banned texts
   let m := tabulate o.markers texts
+  let i := tabulate o.items texts
   { o with cell := memo o.cell c, full := memo o.full f, pfull := memo o.pfull p, banned := memo o.banned b,
-           markers := memo o.markers m }
+           markers := memo o.markers m, items := memo o.items i }
 
 end HedVerif.Closed
 
